@@ -798,6 +798,14 @@ def exec_repeat(case, ctx):
             ft = factory().fit_transform(d["X"], d["y"])
             t = factory().fit(d["X"], d["y"]).transform(d["X"])
         ctx.close("fit_transform==fit+transform", ft, t, 0.0, name)
+    if name.startswith("decomposition.PCovR(feature)") or name.startswith("decomposition.PCovR(sample)") or name == "decomposition.KernelPCovR":
+        # latent coordinates of the training set: tall data and wide data (more features than samples)
+        for dd in (d, data(case["seed"] + 1, 5, 9)):
+            Yarg = dd["Y"] if case["opt"] else dd["y"]
+            with ctx.lib("fit_transform"):
+                ft = np.asarray(factory().fit_transform(dd["X"], Yarg))
+                t = np.asarray(factory().fit(dd["X"], Yarg).transform(dd["X"]))
+            ctx.close("fit_transform==fit+transform", ft, t, 1e-9 * max(1.0, float(np.abs(t).max())), "%s on %dx%d data" % (name, dd["n"], dd["m"]))
     ctx.nontrivial = True
 
 
